@@ -71,6 +71,7 @@ theorem rmFrontContig_spec (d : Deque) (index : Nat) (m : Mem) (hi : d.Inv) (hid
   have c4 := mod_cases (x := d.first + (j + 1)) (c := d.cap) (by omega)
   slots
 
+set_option maxHeartbeats 1000000 in -- many (layout × branch) leaves, each closed by omega
 theorem rmFrontWrap_spec (d : Deque) (index : Nat) (m : Mem) (hi : d.Inv) (hidx : index < d.size)
     (h1 : 1 ≤ index) (hp : (d.first + index) % d.cap < d.first % d.cap) :
     (d.rmFrontWrap index m).2 = m ∧ (d.rmFrontWrap index m).1.length = d.buf.length ∧
@@ -110,6 +111,7 @@ theorem rmBackContig_spec (d : Deque) (index : Nat) (m : Mem) (hi : d.Inv) (hidx
   have c4 := mod_cases (x := d.first + (j + 1)) (c := d.cap) (by omega)
   slots
 
+set_option maxHeartbeats 1000000 in -- many (layout × branch) leaves, each closed by omega
 theorem rmBackWrap_spec (d : Deque) (index : Nat) (m : Mem) (hi : d.Inv) (hidx : index < d.size)
     (h1 : 1 ≤ index) (hp : (d.first + index) % d.cap > d.last % d.cap) :
     (d.rmBackWrap index m).2 = m ∧ (d.rmBackWrap index m).1.length = d.buf.length ∧
@@ -160,7 +162,7 @@ theorem removeAt_spec (d : Deque) (index : Nat) (m : Mem) (hi : d.Inv) :
     rw [if_pos h0, dif_neg (by simp; omega)]
     exact ⟨rfl, rfl, rfl, hi', rfl, rfl⟩
   have hidx : index < d.size := by omega
-  have hslot : (d.first + index) % d.cap < d.buf.length := Nat.lt_of_lt_of_le (Nat.mod_lt _ hpos) hl
+  have hslot : (d.first + index) % d.cap < d.buf.length := Nat.lt_of_lt_of_le (Nat.mod_lt _ hpos) (Nat.le_of_eq hl.symm)
   have hrd : (rd d.buf ((d.first + index) % d.cap) m).2 = m := rd_snd _ _ _ hslot
   unfold removeAt
   rw [if_neg h0]
@@ -214,5 +216,13 @@ theorem removeAt_spec (d : Deque) (index : Nat) (m : Mem) (hi : d.Inv) :
       · exact abs_erase_back d _ index hidx rfl rfl rfl b3
       · simp only; split at hdm <;> omega
       · simp only; omega
+
+theorem removeAt_triple (d : Deque) (i : Nat) (m : Mem) : (d.removeAt i m).2.2.1.triple = d.triple := by
+  unfold removeAt
+  split; · rfl
+  dsimp only
+  split; · exact removeFirst_triple d _
+  split; · exact removeLast_triple d _
+  split <;> rfl
 
 end CC.Deque
